@@ -6,7 +6,7 @@ from wheatley.tower import RingingRoomTower
 from wheatley.bell import Bell
 from wheatley import page_parser, main as wmain
 
-NAMES = [None, "Alice", "Wheatley", "Bob"]
+NAMES = [None, "Alice", "Wheatley", "Bob", "alice"]
 
 
 def rand_history(rng, n):
@@ -15,7 +15,9 @@ def rand_history(rng, n):
     size = rng.choice([4, 6, 8, 12])
     msgs.append({"m": "global_state", "state": [True] * size})
     known = []
-    pool = [(11, "Alice"), (12, "Bob"), (5, "Wheatley"), (13, "Alice"), (14, "Cara")]
+    # (namesakes, and names that differ from another only in case or in surrounding blanks: different people)
+    pool = [(11, "Alice"), (12, "Bob"), (5, "Wheatley"), (13, "Alice"), (14, "Cara"), (15, "alice"), (16, " Wheatley"),
+            (17, "wheatley"), (18, "BOB")]
     for _ in range(n):
         r = rng.random()
         if r < 0.12 or not known:
